@@ -29,7 +29,7 @@ struct ExpOp { int kind; CDNS::GenericQueryResponse qr; CDNS::GenericAddressEven
 struct Workload {
   int kind = 0;
   // export
-  M::Preamble pre; int comp = 0; int okind = 0; std::vector<ExpOp> ops;
+  M::Preamble pre; int comp = 0; int okind = 0; std::vector<ExpOp> ops; std::string long_names;
   // read
   std::string file, variant;
   // blocks
@@ -50,7 +50,8 @@ static std::string run_export(const Workload& w, const std::string& dir) {
   CDNS::FilePreamble fp = adapt::lib_preamble(w.pre);
   std::vector<std::string> outs;
   unsigned n = 0;
-  auto next = [&](std::string& base) { base = dir + "/e" + std::to_string(n++); outs.push_back(w.okind == 0 ? base + EXT[w.comp] : base); };
+  // long_names: outputs of all threads live in one directory and their names (250 characters) agree in the first 247
+  auto next = [&](std::string& base) { base = w.long_names.empty() ? dir + "/e" + std::to_string(n++) : w.long_names + std::to_string(n++ % 10); outs.push_back(w.okind == 0 ? base + EXT[w.comp] : base); };
   auto ofd = [&](const std::string& p) { return ::open(p.c_str(), O_WRONLY | O_CREAT | O_TRUNC, 0644); };
   {
     std::string base; next(base);
@@ -206,6 +207,14 @@ static void c20_threads(Case& cs) {
       if (same_kind && w.kind != forced) { w = gen_workload(c, cs.scratch, cs.size); if (w.kind != forced && forced == W_READ) { filegen::Opts fo; w = Workload(); w.kind = W_READ; w.file = filegen::make(c, cs.scratch, fo).bytes; } }
       plan[t].push_back(w);
     }
+  // one case in six: the named outputs of all export workloads share one directory and differ only behind their 247th character
+  if (c.range(0, 5) == 0) {
+    std::string shared = cs.scratch + "/shared";
+    ::mkdir(shared.c_str(), 0755);
+    unsigned id = 0;
+    for (auto& tw : plan) for (auto& w : tw) if (w.kind == W_EXPORT && id < 100) { w.long_names = shared + "/" + std::string(247, 'L') + (char)('a' + id / 10) + (char)('0' + id % 10); id++; }
+    cs.st.cls("long_output_names_sharing_247_characters");
+  }
   // sequential reference: every workload alone, in a thread of its own (nothing it leaves behind - not even in thread-local
   // storage - can reach another workload)
   std::vector<std::vector<std::string>> ref(T), par(T);
